@@ -5,6 +5,7 @@ From CNV Require Import Base.Prelude Base.Str Base.QNum Model.Chromsort Model.Ce
   Model.Reference Spec.Biweight Spec.Reference
   Proofs.ChromsortLemmas Proofs.ReferenceGc Proofs.ReferenceFlat Proofs.ReferenceBins
   Proofs.ReferenceBiweight Proofs.ReferenceEstimator Proofs.ReferenceCentre Proofs.ReferenceCohort
+  Proofs.ReferenceNoise Proofs.ReferenceNoiseCohort
   Proofs.QNumLemmas Proofs.FnReference Gen.FnReference Gen.FnReferenceGc Gen.FnCnaryFlat.
 From Coq Require Import Qabs.
 Local Open Scope Q_scope.
@@ -366,3 +367,198 @@ Theorem C05_source_gc_lo : forall s,
                               (count_char "g" s) (count_char "c" s) (count_char "G" s) (count_char "C" s) in
   fst p == fst q /\ snd p == snd q.
 Proof. exact fn_gc_lo_eq. Qed.
+
+(* ================================================================================================================== *)
+(* ---- C05_bounded_noise: the statistical clauses ("spread ~ 0", X / Y "~ -1 / 0 / -1") as deterministic theorems ---- *)
+(* Corrections off; any number k >= 1 of files, any bins, exact rational arithmetic.  A block (the target files, or
+   the antitarget files) is a BOUNDED-NOISE cohort around a profile `base` with noise level eps when every file s is,
+   for some per-file constant d (its depth), within eps of profile + d at every bin the centre is taken over
+   (autosomes, and PAR-X with a build): [noisy_like build base eps s d]; the files may show anything elsewhere.
+   [sexed_near] adds: X bins within eps of profile + d (females) / profile + d - 1 (males), Y bins of males within
+   eps of profile + d - 1 (females: anything).  [no_low]: target files hold no null-coverage bin (the centring
+   would drop it).  c is the profile's own centring shift, so b_log2 b + c is the CENTRED profile. *)
+
+(* the lemma under everything: the median is 1-Lipschitz in the sup norm (l' is l + d up to e in every coordinate) *)
+Theorem C05_median_lipschitz : forall d e l l',
+  l <> [] -> Forall2 (fun x y => Qabs (y - (x + d)) <= e) l l' ->
+  Qabs (median l' - (median l + d)) <= e.
+Proof. exact median_lipschitz. Qed.
+
+(* centring moves a file by the median of its per-chromosome medians, which is within eps of (the profile's - d) *)
+Theorem C05_bounded_noise_centring : forall d e skip build t t',
+  Forall2 (bin_near d e (auto_sel t build)) t t' ->
+  existsb is_auto_bin t = true ->
+  (skip = true -> (forall b, In b t -> is_low b = false) /\ (forall b, In b t' -> is_low b = false)) ->
+  exists c c', center_shift median true skip build t = Some c /\
+               center_shift median true skip build t' = Some c' /\ Qabs (c' - (c - d)) <= e.
+Proof. exact center_shift_near. Qed.
+
+(* one column, whatever it comes from: all its values (the flat pseudo-sample is one of them) within r of v  =>
+   the reference log2 within r of v -- by the RANGE property of the biweight location alone -- and
+   spread^2 <= 62 r^2 (midvariance as coded: c = 9, scale floor 1e-3, MAD fallback 1.4826 MAD) *)
+Theorem C05_bounded_noise_column : forall col v r,
+  (2 <= length col)%nat -> (forall x, In x col -> Qabs (x - v) <= r) ->
+  Qabs (consensus_log2 col - v) <= r /\ consensus_spread_sq col <= 62 * (r * r).
+Proof. exact column_near. Qed.
+
+(* 1. + 2.  A bin the centre is taken over (autosomal, PAR-X).  v = centred profile + flat shift (the flat level
+   is 0 there).  Every file's centred, shifted value is within 2 eps of v (eps of noise + eps the centring moved);
+   the column is flat :: those values, so with R = max (2 eps) |flat - v| the reference log2 is within R of v and
+   spread^2 <= 62 R^2; when the centred profile is 0 at the bin (= the flat level), R = 2 eps and
+   spread^2 <= 248 eps^2. *)
+Theorem C05_bounded_noise_log2 : forall hap build sexes skip files base eps,
+  files <> [] -> existsb is_auto_bin base = true -> no_low skip base files ->
+  (forall s, In s files -> exists d, noisy_like build base eps s d) ->
+  forall i d0, (i < length base)%nat -> auto_sel base build (nth i base d0) = true ->
+  exists c, center_shift median true skip build base = Some c /\
+    let b := nth i base d0 in
+    let fl := flat_at hap build base b in
+    let v := b_log2 b + c + fl in
+    let R := noise_radius eps fl v in
+    fl == 0 /\
+    (forall s, In s files -> Qabs (sample_value hap build sexes skip (block_bins files) i s - v) <= 2 * eps) /\
+    Qabs (consensus_log2 (block_column hap build sexes skip files i) - v) <= R /\
+    consensus_spread_sq (block_column hap build sexes skip files i) <= spread_K_radius * (R * R) /\
+    (b_log2 b + c == 0 ->
+       Qabs (consensus_log2 (block_column hap build sexes skip files i) - v) <= 2 * eps /\
+       consensus_spread_sq (block_column hap build sexes skip files i) <= spread_K * (eps * eps)).
+Proof. exact bounded_noise_auto. Qed.
+
+(* the same theorem read for the spread alone, with the constants written out: K = 62 per squared radius,
+   248 = 62 * 4 per eps^2 *)
+Theorem C05_bounded_noise_spread : forall hap build sexes skip files base eps,
+  files <> [] -> existsb is_auto_bin base = true -> no_low skip base files ->
+  (forall s, In s files -> exists d, noisy_like build base eps s d) ->
+  forall i d0, (i < length base)%nat -> auto_sel base build (nth i base d0) = true ->
+  exists c, center_shift median true skip build base = Some c /\
+    let a := b_log2 (nth i base d0) + c in
+    consensus_spread_sq (block_column hap build sexes skip files i)
+      <= 62 * (Qmax2 (2 * eps) (Qabs a) * Qmax2 (2 * eps) (Qabs a)) /\
+    (a == 0 -> consensus_spread_sq (block_column hap build sexes skip files i) <= 248 * (eps * eps)).
+Proof. exact bounded_noise_spread. Qed.
+
+(* 3.  X bins of any male / female mix: with a the bin's centred baseline, the reference X lies within
+   max (2 eps) |a| of a - 1 (male reference) / a (female reference); for a = 0: within 2 eps of -1 / 0. *)
+Theorem C05_bounded_noise_sex_x : forall (hap : bool) build sexes skip files base eps,
+  files <> [] -> existsb is_auto_bin base = true -> no_low skip base files ->
+  (forall s, In s files -> exists d, noisy_like build base eps s d /\ sexed_near build sexes base eps s d) ->
+  forall i d0, (i < length base)%nat -> chr_x_filter base build (nth i base d0) = true ->
+  exists c, center_shift median true skip build base = Some c /\
+    let a := b_log2 (nth i base d0) + c in
+    let v := a + (if hap then -1 else 0) in
+    let R := Qmax2 (2 * eps) (Qabs a) in
+    (forall s, In s files -> Qabs (sample_value hap build sexes skip (block_bins files) i s - v) <= 2 * eps) /\
+    Qabs (consensus_log2 (block_column hap build sexes skip files i) - v) <= R /\
+    consensus_spread_sq (block_column hap build sexes skip files i) <= spread_K_radius * (R * R) /\
+    (a == 0 ->
+       Qabs (consensus_log2 (block_column hap build sexes skip files i) - (if hap then -1 else 0)) <= 2 * eps /\
+       consensus_spread_sq (block_column hap build sexes skip files i) <= spread_K * (eps * eps)).
+Proof. exact bounded_noise_x. Qed.
+
+(* Y bins of an all-male block: within max (2 eps) |a| of a - 1; for a = 0 within 2 eps of -1 *)
+Theorem C05_bounded_noise_sex_y_males : forall hap build sexes skip files base eps,
+  files <> [] -> existsb is_auto_bin base = true -> no_low skip base files ->
+  (forall s, In s files -> exists d, noisy_like build base eps s d /\ sexed_near build sexes base eps s d) ->
+  (forall s, In s files -> sample_is_xx sexes (s_id s) = false) ->
+  forall i d0, (i < length base)%nat -> chr_y_filter base build (nth i base d0) = true ->
+  exists c, center_shift median true skip build base = Some c /\
+    let a := b_log2 (nth i base d0) + c in
+    let v := a - 1 in
+    let R := Qmax2 (2 * eps) (Qabs a) in
+    (forall s, In s files -> Qabs (sample_value hap build sexes skip (block_bins files) i s - v) <= 2 * eps) /\
+    Qabs (consensus_log2 (block_column hap build sexes skip files i) - v) <= R /\
+    consensus_spread_sq (block_column hap build sexes skip files i) <= spread_K_radius * (R * R) /\
+    (a == 0 ->
+       Qabs (consensus_log2 (block_column hap build sexes skip files i) - -1) <= 2 * eps /\
+       consensus_spread_sq (block_column hap build sexes skip files i) <= spread_K * (eps * eps)).
+Proof. exact bounded_noise_y_males. Qed.
+
+(* Y bins of an all-female block: exactly -1 with spread 0 under any noise (females are SET to -1 there) *)
+Theorem C05_bounded_noise_sex_y_females : forall hap build sexes skip files base eps,
+  files <> [] -> existsb is_auto_bin base = true -> no_low skip base files ->
+  (forall s, In s files -> exists d, noisy_like build base eps s d /\ sexed_near build sexes base eps s d) ->
+  (forall s, In s files -> sample_is_xx sexes (s_id s) = true) ->
+  forall i d0, (i < length base)%nat -> chr_y_filter base build (nth i base d0) = true ->
+  consensus_log2 (block_column hap build sexes skip files i) == -1 /\
+  consensus_spread_sq (block_column hap build sexes skip files i) == 0.
+Proof. exact bounded_noise_y_females. Qed.
+
+(* Y bins of a MIXED block whose baseline is the autosomal centre (a = 0): females are at -1 exactly, males within
+   2 eps of -1, the flat level is -1: within 2 eps of -1.  For a <> 0 a mixed column is not constant even without
+   noise: C05_sex_levels_y_mixed_refuted above stays the sharp counter-example. *)
+Theorem C05_bounded_noise_sex_y_mixed : forall hap build sexes skip files base eps,
+  files <> [] -> existsb is_auto_bin base = true -> no_low skip base files ->
+  (forall s, In s files -> exists d, noisy_like build base eps s d /\ sexed_near build sexes base eps s d) ->
+  0 <= eps ->
+  forall i d0, (i < length base)%nat -> chr_y_filter base build (nth i base d0) = true ->
+  exists c, center_shift median true skip build base = Some c /\
+    (b_log2 (nth i base d0) + c == 0 ->
+     (forall s, In s files -> Qabs (sample_value hap build sexes skip (block_bins files) i s - -1) <= 2 * eps) /\
+     Qabs (consensus_log2 (block_column hap build sexes skip files i) - -1) <= 2 * eps /\
+     consensus_spread_sq (block_column hap build sexes skip files i) <= spread_K * (eps * eps)).
+Proof. exact bounded_noise_y_mixed. Qed.
+
+(* 4.  The property's tolerance: |delta| <= 0.15 is reached by 2 eps at eps = 3/40 = 0.075; the literal constants *)
+Theorem C05_bounded_noise_tolerance :
+  spread_K_radius == 62 /\ spread_K == 248 /\ tolerance == 15 # 100 /\ tolerance_eps == 75 # 1000 /\
+  (forall eps, eps <= tolerance_eps -> 2 * eps <= tolerance) /\
+  (forall eps, 0 <= eps -> eps <= 1 # 105 -> spread_K * (eps * eps) <= tolerance * tolerance).
+Proof.
+  split; [reflexivity|]. split; [reflexivity|]. split; [reflexivity|]. split; [reflexivity|].
+  split; [exact tolerance_radius|exact tolerance_spread].
+Qed.
+
+(* ... instantiated: a bounded-noise cohort with eps <= 0.075 whose profile is centred at 0 at an autosomal bin has
+   its reference log2 there within 0.15 of the centred profile + flat shift *)
+Corollary C05_bounded_noise_log2_at_tolerance : forall hap build sexes skip files base eps,
+  files <> [] -> existsb is_auto_bin base = true -> no_low skip base files ->
+  (forall s, In s files -> exists d, noisy_like build base eps s d) ->
+  eps <= 75 # 1000 ->
+  forall i d0, (i < length base)%nat -> auto_sel base build (nth i base d0) = true ->
+  exists c, center_shift median true skip build base = Some c /\
+    (b_log2 (nth i base d0) + c == 0 ->
+     Qabs (consensus_log2 (block_column hap build sexes skip files i)
+           - (b_log2 (nth i base d0) + c + flat_at hap build base (nth i base d0))) <= 15 # 100).
+Proof. exact bounded_noise_auto_tolerance. Qed.
+
+(* ... and X within 0.15 of -1 (male reference) / 0 (female reference), for any sex mix *)
+Corollary C05_bounded_noise_sex_x_at_tolerance : forall (hap : bool) build sexes skip files base eps,
+  files <> [] -> existsb is_auto_bin base = true -> no_low skip base files ->
+  (forall s, In s files -> exists d, noisy_like build base eps s d /\ sexed_near build sexes base eps s d) ->
+  eps <= 75 # 1000 ->
+  forall i d0, (i < length base)%nat -> chr_x_filter base build (nth i base d0) = true ->
+  exists c, center_shift median true skip build base = Some c /\
+    (b_log2 (nth i base d0) + c == 0 ->
+     Qabs (consensus_log2 (block_column hap build sexes skip files i) - (if hap then -1 else 0)) <= 15 # 100).
+Proof. exact bounded_noise_x_tolerance. Qed.
+
+(* the hypotheses are satisfiable with eps > 0 (a female and two males, depths 0 / 1 / -1/2, eps = 1/16; the
+   profile's centring shift is 0) ... *)
+Theorem C05_bounded_noise_hypotheses :
+  nz_files <> [] /\ existsb is_auto_bin nz_base = true /\ no_low true nz_base nz_files /\ 0 < nz_eps /\
+  center_shift median true true None nz_base = Some 0 /\
+  (forall s, In s nz_files ->
+     exists d, noisy_like None nz_base nz_eps s d /\ sexed_near None nz_sexes nz_base nz_eps s d).
+Proof. exact nz_hypotheses. Qed.
+
+(* ... and the bounds are not vacuous.  A second cohort (flat profile, two males and a female, eps = 1/16, noise laid
+   out so that every column is symmetric about its median: the exact rational evaluation then stops after one step)
+   meets the hypotheses as well ... *)
+Theorem C05_bounded_noise_hypotheses_2 :
+  sy_files <> [] /\ existsb is_auto_bin sy_base = true /\ no_low true sy_base sy_files /\
+  center_shift median true true None sy_base = Some 0 /\
+  (forall s, In s sy_files ->
+     exists d, noisy_like None sy_base nz_eps s d /\ sexed_near None sy_sexes sy_base nz_eps s d).
+Proof. exact sy_hypotheses. Qed.
+
+(* ... and its pooled reference (both reference sexes) is 1/32, 0, -1/32 on each autosome, x + 1/32 on X and
+   -1 + 1/32 on Y: off the ideal levels 0 / x / -1 but within 2 eps = 1/8 of them, with spread^2 > 0 in six of the
+   eight bins and <= 248 eps^2 in all (sy_check) *)
+Example C05_example_bounded_noise : sy_check true = true /\ sy_check false = true.
+Proof. vm_compute. split; reflexivity. Qed.
+
+(* the constant 62 cannot be lowered below 400/361 = 1.108: flat -1 and one sample at +1 are within r = 1 of
+   v = 0, the location is 0, spread^2 = 400/361 *)
+Example C05_example_spread_lower :
+  Qred (consensus_log2 [-1; 1]) = 0 /\ Qred (consensus_spread_sq [-1; 1]) = 400 # 361.
+Proof. exact spread_K_radius_lower. Qed.
